@@ -43,6 +43,7 @@ INVARIANTS
   Inv_C06_Budget
   Inv_C06_Funded
   Inv_C06_ProRata
+  Inv_C06_EndedEmpty
   Inv_C13_QueueSound
   Inv_C13_QueueComplete
   Inv_X05_SupplyClosed
@@ -53,6 +54,9 @@ PROPERTIES
   Act_Gh_C13_QueueComplete
   Act_C12_Farm_Queue
   Act_C05_UnstakeNeverFails_ModF2
+  Act_Gh_C05_UnstakeNeverFailsH_ModF2
+  Act_Gh_C05_StakeLedger
+  Act_Gh_C06_RateSet
   Act_C05_UnstakeExact
   Act_C05_StakeExact
   Act_C05_OthersUntouched
